@@ -21,7 +21,7 @@ IN_PROCESS = ["NoCache", "MemoryCache", "CacheProxy(MemoryCache)", "MemoryCache+
 SETTERS = ["one/let-v-x", "one/let-w-y/state_variable-w", "lst-a/appendvar/state_variable-lv", "one/cset-w-cw", "one/cset-v-cv/st", "one/ns-second/add-3",
            "one/let-v-x/add-~X~state_variable-w~E", "one/cmut/state_variable-lv", "one/appendvar-lv-k/appendvar", "one/let-lv-s", "one/fail",
            "one/let-v-x/fail", "one/sub-" + M.encode_token("one/let-v-sub"), "one/let-active_namespaces-zzz"]
-READERS = ["one/state_variable-v", "one/state_variable-w", "one/state_variable-lv", "one/st", "one/add-3", "hello/cat-~X~state_variable-v~E",
+READERS = ["one/cget", "one/cget-w", "one/cget-lv", "one/state_variable-v", "one/state_variable-w", "one/state_variable-lv", "one/st", "one/add-3", "hello/cat-~X~state_variable-v~E",
            "one/appendvar/state_variable-lv", "one/sub-" + M.encode_token("one/state_variable-v"), "state_variable-w", "one/let-v-z/state_variable-v"]
 
 MUTATING = ["lst-a-b/push/push-q", "lst-a/poplen/add-1", "dct/setkey/setkey-z-9", "lst-a/push/coll-~X~push-b~E-~X~poplen~E", "lst-a/appendvar/appendvar-lv-k/state_variable-lv",
